@@ -248,13 +248,26 @@ def run_neutral(spec, res):
                             f"{qa:+.4f} -> {qb:+.4f}, expected shift {d:+d}", **wit)
         elif not same:
             # a residue whose atom set did not gain/lose a terminal proton: must be a chain-terminal residue to differ
-            terminal = ("OXT" in na) or ("H2" in na) or ("H3" in na) or ("H2" in nb) or ("HO" in nb)
+            terminal = ("OXT" in na) or ("H2" in na and ra_[0]["resn"] not in ("WAT", "HOH")) or ("H3" in na) or \
+                ("H2" in nb and rb_[0]["resn"] not in ("WAT", "HOH")) or ("HO" in nb)
             if not terminal:
-                diff = next((x["line"], y["line"]) for x, y in zip(ra_, rb_)
-                            if (x["name"], x["xs"], x["ys"], x["zs"], x["qs"], x["rs"]) !=
-                            (y["name"], y["xs"], y["ys"], y["zs"], y["qs"], y["rs"])) if len(ra_) == len(rb_) else ("", "")
-                res.violate("neutral/non-terminal-residue-changed", f"residue {ra_[0]['resn']} {ra_[0]['resi']} is not "
-                            f"chain-terminal but its lines differ: {diff[0]!r} -> {diff[1]!r}", **wit)
+                polar_h = {"SER": {"HG"}, "THR": {"HG1"}, "TYR": {"HH"}, "CYS": {"HG"}, "WAT": {"H1", "H2"},
+                           "HOH": {"H1", "H2"}}.get(ra_[0]["resn"][-3:], set())
+                only_coords = len(ra_) == len(rb_) and all(
+                    (x["name"], x["qs"], x["rs"]) == (y["name"], y["qs"], y["rs"]) for x, y in zip(ra_, rb_))
+                changed = [x["name"] for x, y in zip(ra_, rb_) if (x["xs"], x["ys"], x["zs"]) != (y["xs"], y["ys"], y["zs"])] \
+                    if only_coords else None
+                diff = next(((x["line"], y["line"]) for x, y in zip(ra_, rb_)
+                             if (x["name"], x["xs"], x["ys"], x["zs"], x["qs"], x["rs"]) !=
+                             (y["name"], y["xs"], y["ys"], y["zs"], y["qs"], y["rs"])), ("", "")) if len(ra_) == len(rb_) \
+                    else ("", "")
+                if only_coords and changed and set(changed) <= polar_h:
+                    res.violate("neutral/neighbouring-polar-hydrogen-reoriented", f"{changed} of non-terminal "
+                                f"{ra_[0]['resn']} {ra_[0]['resi']} moved (names, charges, radii unchanged): {diff[0]!r} -> "
+                                f"{diff[1]!r}", **wit)
+                else:
+                    res.violate("neutral/non-terminal-residue-changed", f"residue {ra_[0]['resn']} {ra_[0]['resi']} is not "
+                                f"chain-terminal but its lines differ: {diff[0]!r} -> {diff[1]!r}", **wit)
     ta, tb = sum(x["q"] for x in a), sum(x["q"] for x in b)
     if abs((tb - ta) - shift_expected) > 1e-3 + 6e-5 * len(a):
         res.violate("neutral/total-shift", f"total {ta:+.4f} -> {tb:+.4f}, termini actually neutralised predict "
